@@ -440,7 +440,10 @@ class HTTPChannel(wasyncore.dispatcher):
         except ClientDisconnected:
             self.logger.info("Client disconnected while serving %s" % task.request.path)
             task.close_on_finish = True
-        except Exception:
+        except BaseException:
+            # including SystemExit, KeyboardInterrupt and GeneratorExit raised
+            # by the application: the worker thread swallows those as well,
+            # and the request has to be answered and popped in any case
             self.logger.exception("Exception while serving %s" % task.request.path)
 
             if not task.wrote_header:
